@@ -302,6 +302,7 @@ func runC07(c *Ctx) {
 	checkBugValidateShape(c)
 	checkMergeResultEntityUse(c)
 	checkHashIsValidCanonical(c, "R7.12")
+	checkLabelChange(c)
 	checkIdentityMergeComparesCommits(c)
 	roots := dataEntryPoints(w)
 	if len(roots) < 15 {
@@ -464,14 +465,17 @@ func checkFormatGate(c *Ctx) {
 		c.Violate("R7.3", "readOperationPack:format-gate", pos, "no refusal 'stored format version != expected format version' found")
 		return
 	}
-	cont := gate.If.Block().Succs[1-errEdge(gate.If, defaultFail)]
+	contEdge := 1 - errEdge(gate.If, defaultFail)
+	gateBlk := gate.If.Block()
 	bad := ""
 	n := 0
 	for _, cl := range Calls(fn) {
 		if cl.Name == "entity/dag.unmarshallPack" || strings.HasSuffix(cl.Name, ".ReadData") {
 			n++
-			if !cont.Dominates(cl.Block()) {
-				bad = cl.Name + " at " + w.InstrPos(cl.Instr) + " can run before the format version was checked"
+			// every path to the read takes the continuing EDGE of the gate (the successor block alone may have other predecessors:
+			// a gate inside the loop that looks for the version entry is bypassed when no such entry exists)
+			if reachWithoutEdge(fn.Blocks[0], cl.Block(), func(b *ssa.BasicBlock, s int) bool { return b == gateBlk && s == contEdge }) {
+				bad = cl.Name + " at " + w.InstrPos(cl.Instr) + " can run without the format version having been checked (for instance when the tree has no version entry)"
 			}
 		}
 	}
@@ -517,11 +521,11 @@ func checkMergeRefIdGuard(c *Ctx) {
 		c.Violate("R7.5", "entity/dag.merge:ref-id-matches-entity-id", pos, "merge never compares the id in the ref name with the id of the entity read from it: a remote can plant any history under any local ref name")
 		return
 	}
-	cont := guard.If.Block().Succs[1-errEdge(guard.If, fail)]
+	contEdge := 1 - errEdge(guard.If, fail)
 	eff := newEffects(w)
 	bad := ""
 	for _, s := range refSites(w, eff, fn) {
-		if !cont.Dominates(s.Call.Instr.Block()) {
+		if !edgeDominates(guard.If.Block(), contEdge, s.Call.Instr.Block()) {
 			bad = s.Call.Name + " at " + w.InstrPos(s.Call.Instr) + " is reachable without the ref-name check"
 		}
 	}
